@@ -374,6 +374,8 @@ fn clear_vs_lock_holder(a: &Args, rep: &mut Report, r: &mut Rng) {
             let f = |c: &Arc<Cell>| {
                 inside_tx.send(()).ok();
                 let _ = go_rx.recv_timeout(std::time::Duration::from_millis(15));
+                // the operation itself: it acts on the storage it was handed
+                c.value.fetch_add(1, Ordering::SeqCst);
                 c.id
             };
             match hk {
@@ -384,7 +386,14 @@ fn clear_vs_lock_holder(a: &Args, rep: &mut Report, r: &mut Rng) {
         });
         inside_rx.recv().ok();
         let regb = reg.clone();
+        let hkey3 = hkey.clone();
         let clearer = std::thread::spawn(move || {
+            // the storage the parked operation works on, as the registry hands it out before the removal
+            let handle: Option<Arc<Cell>> = match hk {
+                0 => regb.get_counter(&hkey3),
+                1 => regb.get_gauge(&hkey3),
+                _ => regb.get_histogram(&hkey3),
+            };
             if use_retain {
                 regb.retain_counters(|_, _| false);
                 regb.retain_gauges(|_, _| false);
@@ -392,10 +401,23 @@ fn clear_vs_lock_holder(a: &Args, rep: &mut Report, r: &mut Rng) {
             } else {
                 regb.clear();
             }
+            // the removal has completed: whatever operated on that storage has done so by now
+            let at_removal = handle.as_ref().map(|h| h.value.load(Ordering::SeqCst));
             go_tx.send(()).ok();
+            (handle, at_removal)
         });
-        clearer.join().unwrap();
+        let (handle, at_removal) = clearer.join().unwrap();
         let _ = holder.join().unwrap();
+        if let (Some(h), Some(v0)) = (&handle, at_removal) {
+            let v1 = h.value.load(Ordering::SeqCst);
+            if v1 != v0 {
+                rep.violation(
+                    "C06:operation-on-storage-after-its-removal-completed",
+                    jo! {"what" => "a get_or_create closure operated on a storage after clear()/retain(false), which removed that storage, had returned (operations on a key's storage and its removal are not mutually exclusive)",
+                    "removed_by" => if use_retain { "retain_*(|_, _| false)" } else { "clear()" }, "parked_operation" => if existing { "get_or_create on an existing key" } else { "get_or_create creating a new key" }, "value_when_removal_returned" => v0, "value_afterwards" => v1},
+                );
+            }
+        }
         // keys with no operation since their creation (everything but the parked one)
         let survivors: Vec<String> = keys.iter().filter(|(kind, k)| !(existing && *kind == hk && *k == hkey)).filter(|(kind, k)| get(&reg, *kind, k).is_some()).map(|(kind, k)| format!("kind{} {}", kind, k.name())).collect();
         rep.case(mix(nkeys as u64, (existing as u64) << 8 | (use_retain as u64) << 9 | (hk as u64) << 10), true);
